@@ -271,7 +271,7 @@ func genL4(r *rng.R) *l4Case {
 	c.Ctx = r.Pick([]string{"marker", "marker", "marker", "marker", "nil", "cancelled-before", "cancelled-between", "deadline"})
 	c.NRows = r.Intn(4)
 	if c.HasOutputs {
-		if r.Chance(1, 5) && c.NRows > 0 {
+		if r.Chance(1, 3) && c.NRows > 0 {
 			c.BadRow = r.Intn(c.NRows)
 		}
 		if r.Chance(1, 4) {
@@ -492,7 +492,9 @@ func runL4Case(c *l4Case) (obs *l4Obs) {
 	cancelBegin := func() {}
 	st.Reset()
 	if onTx {
-		bctx, bcancel := context.WithCancel(context.Background())
+		// the transaction's own context carries another marker than any query's: a query
+		// must never be run under it (a nil query context is Background, not this one)
+		bctx, bcancel := context.WithCancel(context.WithValue(context.Background(), fakedrv.CtxKey{}, "BEGIN"))
 		defer bcancel()
 		cancelBegin = bcancel
 		tx, err = db.Begin(bctx, nil)
